@@ -280,6 +280,9 @@ type Client struct {
 	done chan struct{}
 	// LastRaw holds the bytes of the most recent packet taken off the stream (also when decoding failed)
 	LastRaw []byte
+	// LenientUnsuback: a v5 UNSUBACK the packet library cannot decode is handed on as an UNSUBACK that carries only
+	// its identifier (for callers that wait for the acknowledgement and do not look at the codes)
+	LenientUnsuback bool
 }
 
 func (b *Broker) Dial() *Client {
@@ -345,7 +348,7 @@ func (c *Client) Recv(timeout time.Duration) (mqttp.IFace, error) {
 					return sa, nil
 				}
 			}
-			if err != nil && c.Ver == mqttp.ProtocolV50 && len(c.LastRaw) >= 4 && c.LastRaw[0]>>4 == 11 {
+			if err != nil && c.LenientUnsuback && c.Ver == mqttp.ProtocolV50 && len(c.LastRaw) >= 4 && c.LastRaw[0]>>4 == 11 {
 				// ... and a v5 UNSUBACK (whatever it carries): keep the identifier, that is all the callers look at
 				if x, e := mqttp.New(mqttp.ProtocolV50, mqttp.UNSUBACK); e == nil {
 					if ua, ok := x.(*mqttp.UnSubAck); ok {
